@@ -616,6 +616,13 @@ func (ps params) set(m proto.Message) error {
 	for _, p := range ps {
 		cur := m.ProtoReflect()
 		for i, fd := range p.fds {
+			// The rule may have been compiled from another backend's copy of
+			// the descriptors: bind the field to this message's own.
+			if d := cur.Descriptor(); fd.Parent() != d {
+				if fd = d.Fields().ByNumber(fd.Number()); fd == nil {
+					return fmt.Errorf("field %d not found in %s", p.fds[i].Number(), d.FullName())
+				}
+			}
 			if len(p.fds)-1 == i {
 				switch {
 				case fd.IsList():
